@@ -55,3 +55,16 @@ pub(crate) fn hasher_write_noop(_h: &mut std::hash::DefaultHasher, _bytes: &[u8]
 pub(crate) fn hasher_finish_zero(_h: &std::hash::DefaultHasher) -> u64 {
     0
 }
+
+/// Replaces `std::mem::swap`: typed moves instead of the byte-chunk swap of
+/// `swap_nonoverlapping_bytes`. After a byte-wise swap CBMC sees a Vec's data
+/// pointer as a value reassembled from bytes, loses which object it points to,
+/// and every later access through it becomes a case split over all of memory
+/// (solver out of memory). Semantically identical.
+pub(crate) fn typed_swap<T>(a: &mut T, b: &mut T) {
+    unsafe {
+        let t = std::ptr::read(a);
+        std::ptr::write(a, std::ptr::read(b));
+        std::ptr::write(b, t);
+    }
+}
